@@ -27,8 +27,8 @@ type c05Stream struct {
 	Out    bool     `json:"out"`
 	Chunks []hx.Hex `json:"chunks"` // concatenated and delivered after the state is reached
 	Cuts   []int    `json:"cuts,omitempty"`
-	End    string   `json:"end,omitempty"`    // "", close, reset
-	LHold  int      `json:"lhold,omitempty"`  // local hold time of the target peer
+	End    string   `json:"end,omitempty"`   // "", close, reset
+	LHold  int      `json:"lhold,omitempty"` // local hold time of the target peer
 	SpinCb string   `json:"spin_cb,omitempty"`
 }
 
